@@ -224,6 +224,15 @@ type c09State struct {
 	mutations      int // overwrites + deletes so far
 	restores       int
 	nontrivial     bool
+	// field names of this corpus: primary carries most of the text ("content" in most cases,
+	// otherwise another name), secondary is a second text field; "cat" holds single words.
+	primary, secondary string
+	// preMode != 0 while the index is in its "no primary text yet" phase: 1 = documents carry
+	// no string metadata at all, 2 = only the secondary field / cat carry text.
+	preMode int
+	// fieldLog is the sequence of distinct text-field sets under which explicit-text engine
+	// queries have been issued so far on the current index (witness material).
+	fieldLog []string
 }
 
 func (s *c09State) kind(k string) {
@@ -232,6 +241,14 @@ func (s *c09State) kind(k string) {
 }
 
 func (s *c09State) word() string { return vkit.Pick(s.cs.R, s.lang.vocab) }
+
+// catWord is a single word for the "cat" field, rarely a stop word (a text of zero analysed tokens).
+func (s *c09State) catWord() string {
+	if s.cs.R.Chance(0.03) {
+		return s.word()
+	}
+	return s.lang.vocab[s.cs.R.Intn(10)]
+}
 
 func (s *c09State) isStop(w string) bool { return len(s.lang.an.Analyze(w)) == 0 }
 
@@ -329,17 +346,35 @@ func (s *c09State) deadIDs() []string {
 func (s *c09State) newMeta() map[string]any {
 	r := s.cs.R
 	meta := map[string]any{"n": float64(r.Intn(50))}
+	switch s.preMode {
+	case 1: // no string metadata at all: the index has no text field
+		if r.Chance(0.3) {
+			meta[s.primary] = float64(r.Intn(9))
+		}
+		return meta
+	case 2: // text only in the secondary field (and sometimes cat)
+		if r.Chance(0.75) {
+			meta[s.secondary] = s.text()
+		}
+		if r.Chance(0.15) {
+			meta["cat"] = s.catWord()
+		}
+		if r.Chance(0.2) {
+			meta[s.primary] = s.nonString()
+		}
+		return meta
+	}
 	switch p := r.Intn(100); {
 	case p < 88:
-		meta["content"] = s.text()
+		meta[s.primary] = s.text()
 	case p < 94:
-		meta["content"] = s.nonString()
+		meta[s.primary] = s.nonString()
 	}
 	if r.Chance(0.5) {
-		meta["title"] = s.text()
+		meta[s.secondary] = s.text()
 	}
 	if r.Chance(0.25) {
-		meta["cat"] = s.word()
+		meta["cat"] = s.catWord()
 	}
 	return meta
 }
@@ -400,9 +435,9 @@ func (s *c09State) overwrite() {
 		return
 	}
 	id := vkit.Pick(r, live)
-	field := "content"
+	field := s.primary
 	if r.Chance(0.2) {
-		field = "title"
+		field = s.secondary
 	}
 	cur := s.x.M.Idx[c09Index].Recs[id].Meta[field]
 	curLen := s.analysedLen(cur)
@@ -450,7 +485,7 @@ func (s *c09State) overwrite() {
 		return
 	}
 	s.kind(kind)
-	if field == "title" {
+	if field == s.secondary {
 		s.ctx.Count("hist.title_overwrites", 1)
 	}
 	s.x.VSetMetadata(c09Index, id, map[string]any{field: val})
@@ -472,6 +507,31 @@ func (s *c09State) delete() {
 	if s.cs.R.Chance(0.15) {
 		s.kind("vacuum")
 		s.x.Maintenance(c09Index, "vacuum")
+	}
+}
+
+// strip removes the primary text from every live document (overwrite to a non-string, or
+// delete the document): the set of text fields of the index shrinks in mid-life; the text comes
+// back later through the ordinary overwrites and inserts.
+func (s *c09State) strip() {
+	r := s.cs.R
+	live := s.liveIDs()
+	if len(live) == 0 {
+		return
+	}
+	s.kind("strip_primary_text")
+	mi := s.x.M.Idx[c09Index]
+	keep := live[r.Intn(len(live))] // at least one document stays
+	for _, id := range live {
+		if _, isStr := mi.Recs[id].Meta[s.primary].(string); !isStr {
+			continue
+		}
+		if id != keep && r.Chance(0.3) {
+			s.x.VDelete(c09Index, id)
+		} else {
+			s.x.VSetMetadata(c09Index, id, map[string]any{s.primary: s.nonString()})
+		}
+		s.mutations++
 	}
 }
 
@@ -534,9 +594,9 @@ func (s *c09State) decoyOp(id string) {
 	s.ctx.Count("hist.decoy_ops", 1)
 	switch {
 	case mi.Recs[id] == nil:
-		s.x.VAdd(c09Decoy, id, []float32{s.cs.R.F32(), s.cs.R.F32()}, map[string]any{"content": s.text(), "title": s.text()})
+		s.x.VAdd(c09Decoy, id, []float32{s.cs.R.F32(), s.cs.R.F32()}, map[string]any{s.primary: s.text(), s.secondary: s.text()})
 	case s.cs.R.Chance(0.5):
-		s.x.VSetMetadata(c09Decoy, id, map[string]any{"content": s.text()})
+		s.x.VSetMetadata(c09Decoy, id, map[string]any{s.primary: s.text()})
 	default:
 		s.x.VDelete(c09Decoy, id)
 	}
@@ -552,8 +612,55 @@ func (s *c09State) recreate() {
 	s.bgRefine = false
 	s.inserted = 0
 	s.mutations++
-	for _, i := range s.cs.R.Perm(12)[:s.cs.R.Range(3, 8)] {
-		s.add(s.pool[i])
+	s.fieldLog = nil
+	s.populate(s.cs.R.Range(3, 8))
+}
+
+// populate is the early life of a freshly created index. The text of a corpus may arrive at any
+// point of that life and queries may be issued at any point too: optionally the still empty
+// index is queried, and optionally the first documents carry no primary text yet (no string
+// metadata at all, or text only in the secondary field) and are queried in that state, before
+// the primary text arrives through overwrites and further inserts.
+func (s *c09State) populate(n0 int) {
+	r := s.cs.R
+	if r.Chance(0.3) {
+		s.kind("query_empty_index")
+		s.checkpoint(1, 2)
+	}
+	if r.Chance(0.35) {
+		s.preMode = 1 + r.Intn(2)
+		s.kind(fmt.Sprintf("pretext_phase%d", s.preMode))
+		n0 = min(n0, 6)
+	}
+	first := r.Perm(12)[:n0]
+	if r.Chance(0.25) {
+		var ids []string
+		for _, i := range first {
+			ids = append(ids, s.pool[i])
+		}
+		s.addMany(ids)
+	} else {
+		for _, i := range first {
+			s.add(s.pool[i])
+		}
+	}
+	if s.preMode == 0 {
+		return
+	}
+	s.checkpoint(2, 3)
+	s.preMode = 0
+	live := s.liveIDs()
+	got := 0
+	for i, id := range live {
+		if r.Chance(0.7) || (i == len(live)-1 && got == 0) {
+			s.kind("ow_tostring")
+			s.x.VSetMetadata(c09Index, id, map[string]any{s.primary: s.text()})
+			s.mutations++
+			got++
+		}
+	}
+	if dead := s.deadIDs(); len(dead) > 0 && s.inserted < s.maxInserts && r.Chance(0.5) {
+		s.add(vkit.Pick(r, dead))
 	}
 }
 
@@ -561,6 +668,18 @@ func c09Case(ctx *vkit.Ctx, cs *vkit.Case) {
 	r := cs.R
 	s := &c09State{ctx: ctx, cs: cs, everLive: map[string]bool{}}
 	s.lang = c09Langs()[r.Intn(2)]
+	// field names: the engine's explicit-text search looks for a text field by name, so the
+	// name of the field that carries the text is part of the input space
+	s.primary, s.secondary = "content", "title"
+	if r.Chance(0.4) {
+		s.primary = vkit.Pick(r, []string{"text", "body", "description", "summary", "page_content", "notes"})
+	}
+	if r.Chance(0.3) {
+		s.secondary = vkit.Pick(r, []string{"summary", "description", "abstract"})
+		if s.secondary == s.primary {
+			s.secondary = "title"
+		}
+	}
 	s.dim = vkit.Pick(r, []int{2, 3, 4, 8})
 	s.grid = r.Chance(0.4)
 	for i := 0; i < 12; i++ {
@@ -592,19 +711,7 @@ func c09Case(ctx *vkit.Ctx, cs *vkit.Case) {
 		}
 	}
 
-	n0 := r.Range(3, 12)
-	first := r.Perm(12)[:n0]
-	if r.Chance(0.25) {
-		var ids []string
-		for _, i := range first {
-			ids = append(ids, s.pool[i])
-		}
-		s.addMany(ids)
-	} else {
-		for _, i := range first {
-			s.add(s.pool[i])
-		}
-	}
+	s.populate(r.Range(3, 12))
 	s.checkpoint(3, 2)
 
 	nops := r.Range(8, ctx.N(18, 24))
@@ -613,9 +720,14 @@ func c09Case(ctx *vkit.Ctx, cs *vkit.Case) {
 		if s.decoy && r.Chance(0.12) {
 			s.decoyOp(vkit.Pick(r, s.pool))
 		}
-		if r.Chance(0.015) {
+		if r.Chance(0.025) {
 			s.recreate()
 			s.checkpoint(3, 2)
+			continue
+		}
+		if r.Chance(0.03) {
+			s.strip()
+			s.checkpoint(2, 3)
 			continue
 		}
 		switch p := r.Intn(100); {
@@ -649,21 +761,82 @@ func c09Case(ctx *vkit.Ctx, cs *vkit.Case) {
 		ctx.Distinct(s.lang.name + "|" + strings.Join(s.kinds, ","))
 	}
 	ctx.Count("corpora", 1)
-	ctx.Sample("history", 2, map[string]any{"lang": s.lang.name, "metric": string(s.cfg.Metric), "ops": cs.Ops()[:min(len(cs.Ops()), 30)]})
+	ctx.Sample("history", 2, map[string]any{"lang": s.lang.name, "fields": s.primary + "," + s.secondary, "metric": string(s.cfg.Metric), "ops": cs.Ops()[:min(len(cs.Ops()), 30)]})
 }
 
 // ---- checkpoint: read the current data, rebuild the reference, run queries ----------------
 
 type c09View struct {
-	live    map[string]map[string]any // live id -> metadata as VGet returns it
-	vecs    map[string][]float32      // live id -> vector as supplied (model)
-	content *c09Corpus
-	title   *c09Corpus
-	h       *hnsw.Index
+	live map[string]map[string]any // live id -> metadata as VGet returns it
+	vecs map[string][]float32      // live id -> vector as supplied (model)
+	an   textanalyzer.Analyzer
+	corp map[string]*c09Corpus // field -> current corpus, built on demand
+	h    *hnsw.Index
+}
+
+// corpus returns the current corpus of a field (empty when no live document holds a string there).
+func (v *c09View) corpus(field string) *c09Corpus {
+	if c := v.corp[field]; c != nil {
+		return c
+	}
+	c := c09BuildCorpus(v.an, field, v.live)
+	v.corp[field] = c
+	return c
+}
+
+// stringFields lists the metadata keys under which at least one live document currently holds a
+// string: these are the text fields of the index at this moment.
+func (v *c09View) stringFields() []string {
+	set := map[string]bool{}
+	for _, m := range v.live {
+		for k, val := range m {
+			if _, ok := val.(string); ok {
+				set[k] = true
+			}
+		}
+	}
+	return vexec.SortedKeys(set)
+}
+
+// c09Documented are the field names the engine's own hint names for explicit-text search
+// ("Make sure metadata contains one of: ..."), plus "summary" from its candidate list.
+var c09Documented = map[string]bool{"content": true, "text": true, "page_content": true, "body": true, "description": true, "summary": true}
+
+// explicitFields says over which field(s) an explicit text query may be evaluated right now.
+// The property fixes the formula, not the field; what is asserted is therefore only what every
+// reading shares: the text side is BM25 over the CURRENT values of a field that currently holds
+// text. "content" wins when it holds text; otherwise a field named in the engine's hint wins
+// over an arbitrary name; among several remaining candidates any one is accepted. No text
+// field at all: vector-only order. lenient=true when some text field holds a document with
+// zero analysed tokens (which field the engine then sees is not settled).
+func (v *c09View) explicitFields() (cands []*c09Corpus, all []string, lenient bool) {
+	all = v.stringFields()
+	var doc, other []*c09Corpus
+	docStrict, otherStrict := true, true
+	for _, f := range all {
+		c := v.corpus(f)
+		switch {
+		case f == "content":
+			if !c.strict {
+				return nil, all, true
+			}
+			return []*c09Corpus{c}, all, false
+		case c09Documented[f]:
+			doc = append(doc, c)
+			docStrict = docStrict && c.strict
+		default:
+			other = append(other, c)
+			otherStrict = otherStrict && c.strict
+		}
+	}
+	if len(doc) > 0 {
+		return doc, all, !docStrict
+	}
+	return other, all, !otherStrict
 }
 
 func (s *c09State) view() *c09View {
-	v := &c09View{live: map[string]map[string]any{}, vecs: map[string][]float32{}}
+	v := &c09View{live: map[string]map[string]any{}, vecs: map[string][]float32{}, an: s.lang.an, corp: map[string]*c09Corpus{}}
 	mi := s.x.M.Idx[c09Index]
 	for _, id := range s.pool {
 		d, err := s.x.E.VGet(c09Index, id)
@@ -683,8 +856,6 @@ func (s *c09State) view() *c09View {
 			v.vecs[id] = mi.Recs[id].Vec
 		}
 	}
-	v.content = c09BuildCorpus(s.lang.an, "content", v.live)
-	v.title = c09BuildCorpus(s.lang.an, "title", v.live)
 	idx, ok := s.x.E.DB.GetVectorIndex(c09Index)
 	if !ok {
 		s.cs.Fail("index %s vanished", c09Index)
@@ -721,11 +892,14 @@ func (s *c09State) query(repeat bool) string {
 func (s *c09State) checkpoint(nText, nHybrid int) {
 	v := s.view()
 	r := s.cs.R
-	s.cs.Op("checkpoint: live=%d content-corpus=%d (strict=%v) title-corpus=%d (strict=%v)", len(v.live), len(v.content.ids), v.content.strict, len(v.title.ids), v.title.strict)
+	pc, sc := v.corpus(s.primary), v.corpus(s.secondary)
+	s.cs.Op("checkpoint: live=%d text fields now %v; %s-corpus=%d (strict=%v) %s-corpus=%d (strict=%v)", len(v.live), v.stringFields(), s.primary, len(pc.ids), pc.strict, s.secondary, len(sc.ids), sc.strict)
 	for i := 0; i < nText; i++ {
-		c := v.content
-		if r.Chance(0.25) {
-			c = v.title
+		c := pc
+		if p := r.Intn(100); p < 25 {
+			c = sc
+		} else if p < 32 {
+			c = v.corpus("cat")
 		}
 		s.textQuery(v, c, s.query(r.Chance(0.08)))
 	}
@@ -734,6 +908,14 @@ func (s *c09State) checkpoint(nText, nHybrid int) {
 	}
 	if r.Chance(0.6) {
 		s.textOnlyEngine(v)
+	}
+	if s.decoy && r.Chance(0.3) {
+		// a search on ANOTHER index (other language, other text fields) is part of the history
+		// too: it must not change what later searches on this index return
+		q := s.query(false)
+		s.cs.Op("VSearch(%s, text=%q)  [decoy index, result not examined]", c09Decoy, q)
+		s.x.E.VSearch(c09Decoy, []float32{r.F32(), r.F32()}, 3, "", q, 0, 0.5, nil)
+		s.ctx.Count("hist.decoy_queries", 1)
 	}
 }
 
@@ -878,38 +1060,52 @@ func c09IDs(res []engine.GraphSearchResult) []string {
 	return out
 }
 
+// noteFields records under which text-field set an explicit-text engine query is issued.
+func (s *c09State) noteFields(all []string) string {
+	key := fmt.Sprintf("%v", all)
+	if len(s.fieldLog) == 0 || s.fieldLog[len(s.fieldLog)-1] != key {
+		s.fieldLog = append(s.fieldLog, key)
+	}
+	switch {
+	case len(all) == 0:
+		s.ctx.Count("explicit.queries_without_any_text_field", 1)
+	case len(s.fieldLog) > 1:
+		s.ctx.Count("explicit.queries_after_text_field_set_changed", 1)
+	}
+	return key
+}
+
 // hybridQuery checks the fusion arithmetic and the alpha=1 / alpha=0 orders.
 func (s *c09State) hybridQuery(v *c09View) {
 	cs, r := s.cs, s.cs.R
 	n := len(v.live)
-	if n == 0 {
-		s.ctx.Count("hybrid.skipped_empty_index", 1)
-		return
-	}
 	if s.bgRefine {
 		s.ctx.Count("hybrid.skipped_background_refine", 1)
 		return
 	}
-	// explicit text query: the engine auto-detects the field and prefers "content"; that is
-	// only determinate while the content field has indexed tokens.
-	field, viaContains := "content", false
-	if r.Chance(0.3) {
-		viaContains = true
+	// Either an explicit text query (the engine chooses the field, see explicitFields) or the
+	// CONTAINS(field, '...') syntax that names the field.
+	viaContains := r.Chance(0.3)
+	var cands []*c09Corpus
+	var all []string
+	if viaContains {
+		field := s.primary
 		if r.Chance(0.4) {
-			field = "title"
+			field = s.secondary
 		}
-	}
-	c := v.content
-	if field == "title" {
-		c = v.title
-	}
-	if !c.strict {
-		s.ctx.Count("hybrid.skipped_lenient_corpus", 1)
-		return
-	}
-	if !viaContains && !c.hasTokens() {
-		s.ctx.Count("hybrid.skipped_no_content_tokens", 1)
-		return
+		c := v.corpus(field)
+		if !c.strict {
+			s.ctx.Count("hybrid.skipped_lenient_corpus", 1)
+			return
+		}
+		cands, all = []*c09Corpus{c}, v.stringFields()
+	} else {
+		var lenient bool
+		cands, all, lenient = v.explicitFields()
+		if lenient {
+			s.ctx.Count("hybrid.skipped_lenient_corpus", 1)
+			return
+		}
 	}
 	var q string
 	for try := 0; try < 20; try++ {
@@ -926,15 +1122,20 @@ func (s *c09State) hybridQuery(v *c09View) {
 	if r.Chance(0.25) {
 		alpha = float64(r.Intn(1001)) / 1000
 	}
-	k := n + r.Intn(4)
+	// k >= n mostly; otherwise k < n: the vector side is then the engine's own top-k of the pure
+	// vector search with the same k, and the result must be a top-k of the fused scores
+	k := max(1, n+r.Intn(4))
+	if n >= 2 && r.Chance(0.3) {
+		k = r.Range(1, n-1)
+	}
 	ef := vkit.Pick(r, []int{0, 64, 200})
 	qv := s.vec()
 	filter, explicit := "", q
 	if viaContains {
-		filter, explicit = fmt.Sprintf("CONTAINS(%s, '%s')", field, q), ""
+		filter, explicit = fmt.Sprintf("CONTAINS(%s, '%s')", cands[0].field, q), ""
 	}
 
-	cs.Op("VSearchGraph(%s, q=%v, k=%d, filter=%q, text=%q, ef=%d, alpha=%v) and the pure vector search of the same q,k,ef", c09Index, qv, k, filter, explicit, ef, alpha)
+	cs.Op("VSearchGraph(%s, q=%v, k=%d, filter=%q, text=%q, ef=%d, alpha=%v) and the pure vector search of the same q,k,ef; text fields now %v", c09Index, qv, k, filter, explicit, ef, alpha, all)
 	pure, err := s.x.E.VSearchGraph(c09Index, qv, k, "", "", ef, alpha, nil, false, nil)
 	if err != nil {
 		cs.Fail("pure vector VSearchGraph failed: %v", err)
@@ -958,124 +1159,257 @@ func (s *c09State) hybridQuery(v *c09View) {
 			s.ctx.Count("hybrid.sim_recomputed", 1)
 		}
 	}
-	if len(pure) != n {
+	if len(pure) != min(n, k) {
 		s.ctx.Count("hybrid.vector_side_incomplete", 1) // recall of the vector side is C06/C07's claim
 		s.ctx.Sample("vector_side_incomplete", 3, map[string]any{"live": len(v.live), "k": k, "ef": ef, "returned": c09IDs(pure), "history": strings.Join(s.kinds, " "), "metric": string(s.cfg.Metric), "compressed": s.compressed})
 	}
 
+	earlier := append([]string(nil), s.fieldLog...)
+	if !viaContains {
+		s.noteFields(all)
+	}
 	res, err := s.x.E.VSearchGraph(c09Index, qv, k, filter, explicit, ef, alpha, nil, false, nil)
 	if err != nil {
 		cs.Fail("hybrid VSearchGraph failed: %v", err)
 	}
-	bm := c.score(qt)
-	maxBM := 0.0
-	for _, w := range bm {
-		if w > maxBM {
-			maxBM = w
+	fail := func(c *c09Corpus, bm, want map[string]float64, msg string) {
+		if c != nil {
+			cs.Attach("corpus", c09CorpusDump(v, c))
+			cs.Attach("bm25_reference", c09FmtScores(bm))
+			cs.Attach("expected_fused", c09FmtScores(want))
 		}
-	}
-	want := map[string]float64{}
-	for id, sv := range simV {
-		want[id] += alpha * sv
-	}
-	for id, w := range bm {
-		want[id] += (1 - alpha) * (w / maxBM)
-	}
-	fail := func(format string, a ...any) {
-		cs.Attach("corpus", c09CorpusDump(v, c))
-		cs.Attach("bm25_reference", c09FmtScores(bm))
 		cs.Attach("vector_similarity", c09FmtScores(simV))
-		cs.Attach("expected_fused", c09FmtScores(want))
 		cs.Attach("observed", c09IDs(res))
-		cs.Fail("hybrid alpha=%v text=%q field=%s (contains-syntax=%v) after history [%s]: %s", alpha, q, field, viaContains, strings.Join(s.kinds, " "), fmt.Sprintf(format, a...))
+		cs.Attach("text_fields_now", all)
+		cs.Attach("text_field_sets_at_earlier_explicit_queries_on_this_index", earlier)
+		field := "<none: no live document holds text>"
+		if c != nil {
+			field = c.field
+		}
+		cs.Fail("hybrid alpha=%v text=%q field=%s (contains-syntax=%v; text fields now %v, at earlier explicit-text queries %v) after history [%s]: %s", alpha, q, field, viaContains, all, earlier, strings.Join(s.kinds, " "), msg)
 	}
+	// results common to every reading: live, no duplicates, non-increasing
 	seen := map[string]bool{}
 	for i, h := range res {
 		if seen[h.ID] {
-			fail("document %s is returned twice", h.ID)
+			fail(nil, nil, nil, fmt.Sprintf("document %s is returned twice", h.ID))
 		}
 		seen[h.ID] = true
 		if _, ok := v.live[h.ID]; !ok {
-			fail("result %s is not a live document", h.ID)
-		}
-		w, ok := want[h.ID]
-		if !ok {
-			fail("result %s (score %v) is neither a vector result nor a document containing a query term", h.ID, h.Score)
-		}
-		if math.Abs(h.Score-w) > 1e-6 {
-			fail("score of %s is %.12g, expected alpha*sim + (1-alpha)*bm25/max = %v*%.12g + %v*%.12g/%.12g = %.12g", h.ID, h.Score, alpha, simV[h.ID], 1-alpha, bm[h.ID], maxBM, w)
+			fail(nil, nil, nil, fmt.Sprintf("result %s is not a live document", h.ID))
 		}
 		if i > 0 && !(h.Score <= res[i-1].Score) {
-			fail("results are not in non-increasing score order at position %d", i)
+			fail(nil, nil, nil, fmt.Sprintf("results are not in non-increasing score order at position %d", i))
 		}
 	}
-	if len(want) <= k {
-		for id := range want {
-			if !seen[id] {
-				fail("document %s has fused score %.9g and k=%d >= %d candidates, but it is not returned", id, want[id], k, len(want))
-			}
+
+	if len(cands) == 0 {
+		// No live document holds text: every text score is zero, the ranking is the vector ranking.
+		if len(res) != len(pure) {
+			fail(nil, nil, nil, fmt.Sprintf("no text field exists, yet the hybrid search returns %d documents and the pure vector search %d", len(res), len(pure)))
 		}
-	}
-	if alpha == 1 {
-		// order equals the pure vector order (ties free); documents without a vector score come last
 		last := math.Inf(1)
-		tail := false
 		for _, h := range res {
-			sv, inV := simV[h.ID]
-			if !inV {
-				tail = true
-				continue
-			}
-			if tail {
-				fail("alpha=1: %s (vector similarity %v) is ranked after a document that has no vector score", h.ID, sv)
+			sv, ok := simV[h.ID]
+			if !ok {
+				fail(nil, nil, nil, fmt.Sprintf("no text field exists, yet %s is returned which the pure vector search does not return", h.ID))
 			}
 			if sv > last {
-				fail("alpha=1: order differs from the pure vector order at %s (similarity %v after %v)", h.ID, sv, last)
+				fail(nil, nil, nil, fmt.Sprintf("no text field exists: order differs from the pure vector order at %s (similarity %v after %v)", h.ID, sv, last))
 			}
 			last = sv
 		}
+		s.ctx.Eval(1)
+		s.ctx.Count("hybrid.queries", 1)
+		s.ctx.Count("hybrid.queries_no_text_field", 1)
+		if n == 0 {
+			s.ctx.Count("hybrid.queries_on_empty_index", 1)
+		}
+		if len(res) < k {
+			s.vsearchIDs(v, qv, k, filter, explicit, ef, alpha, res)
+		}
+		return
+	}
+
+	// compare evaluates the observed result against the fusion over one candidate field
+	compare := func(c *c09Corpus) (bm, want map[string]float64, problem string) {
+		bm = c.score(qt)
+		maxBM := 0.0
+		for _, w := range bm {
+			if w > maxBM {
+				maxBM = w
+			}
+		}
+		want = map[string]float64{}
+		for id, sv := range simV {
+			want[id] += alpha * sv
+		}
+		for id, w := range bm {
+			want[id] += (1 - alpha) * (w / maxBM)
+		}
+		for _, h := range res {
+			w, ok := want[h.ID]
+			if !ok {
+				return bm, want, fmt.Sprintf("result %s (score %v) is neither a vector result nor a document containing a query term", h.ID, h.Score)
+			}
+			if math.Abs(h.Score-w) > 1e-6 {
+				return bm, want, fmt.Sprintf("score of %s is %.12g, expected alpha*sim + (1-alpha)*bm25/max = %v*%.12g + %v*%.12g/%.12g = %.12g", h.ID, h.Score, alpha, simV[h.ID], 1-alpha, bm[h.ID], maxBM, w)
+			}
+		}
+		if len(want) <= k {
+			for _, id := range vexec.SortedKeys(want) {
+				if !seen[id] {
+					return bm, want, fmt.Sprintf("document %s has fused score %.9g and k=%d >= %d candidates, but it is not returned", id, want[id], k, len(want))
+				}
+			}
+		} else {
+			if len(res) != k {
+				return bm, want, fmt.Sprintf("%d results although %d documents have a fused score and k=%d", len(res), len(want), k)
+			}
+			lowest := res[len(res)-1].Score
+			for _, id := range vexec.SortedKeys(want) {
+				if !seen[id] && want[id] > lowest+1e-6 {
+					return bm, want, fmt.Sprintf("document %s (fused score %.9g) is cut off by k=%d although the returned %s scores only %.9g", id, want[id], k, res[len(res)-1].ID, lowest)
+				}
+			}
+		}
+		if alpha == 1 {
+			// order equals the pure vector order (ties free); documents without a vector score come last
+			last := math.Inf(1)
+			tail := false
+			for _, h := range res {
+				sv, inV := simV[h.ID]
+				if !inV {
+					tail = true
+					continue
+				}
+				if tail {
+					return bm, want, fmt.Sprintf("alpha=1: %s (vector similarity %v) is ranked after a document that has no vector score", h.ID, sv)
+				}
+				if sv > last {
+					return bm, want, fmt.Sprintf("alpha=1: order differs from the pure vector order at %s (similarity %v after %v)", h.ID, sv, last)
+				}
+				last = sv
+			}
+		}
+		if alpha == 0 {
+			// order equals the pure text order among documents with non-zero text score (ties free)
+			last := math.Inf(1)
+			tail := false
+			for _, h := range res {
+				w, inT := bm[h.ID]
+				if !inT || w == 0 {
+					tail = true
+					continue
+				}
+				if tail {
+					return bm, want, fmt.Sprintf("alpha=0: %s (BM25 %v) is ranked after a document with zero text score", h.ID, w)
+				}
+				if w > last && !c09RelClose(w, last, 1e-9) {
+					return bm, want, fmt.Sprintf("alpha=0: order differs from the pure text order at %s (BM25 %v after %v)", h.ID, w, last)
+				}
+				last = w
+			}
+		}
+		return bm, want, ""
+	}
+	var used *c09Corpus
+	var usedBM map[string]float64
+	for _, c := range cands {
+		bm, _, problem := compare(c)
+		if problem == "" {
+			used, usedBM = c, bm
+			break
+		}
+	}
+	if used == nil {
+		bm, want, problem := compare(cands[0])
+		if len(cands) > 1 {
+			var names []string
+			for _, c := range cands {
+				names = append(names, c.field)
+			}
+			problem = fmt.Sprintf("the result is the fusion over none of the candidate fields %v; against %s: %s", names, cands[0].field, problem)
+		}
+		fail(cands[0], bm, want, problem)
+	}
+	if alpha == 1 {
 		s.ctx.Count("hybrid.alpha1", 1)
 	}
 	if alpha == 0 {
-		// order equals the pure text order among documents with non-zero text score (ties free)
-		last := math.Inf(1)
-		tail := false
-		for _, h := range res {
-			w, inT := bm[h.ID]
-			if !inT || w == 0 {
-				tail = true
-				continue
-			}
-			if tail {
-				fail("alpha=0: %s (BM25 %v) is ranked after a document with zero text score", h.ID, w)
-			}
-			if w > last && !c09RelClose(w, last, 1e-9) {
-				fail("alpha=0: order differs from the pure text order at %s (BM25 %v after %v)", h.ID, w, last)
-			}
-			last = w
-		}
 		s.ctx.Count("hybrid.alpha0", 1)
 	}
 	s.ctx.Eval(1)
 	s.ctx.Count("hybrid.queries", 1)
 	if viaContains {
 		s.ctx.Count("hybrid.via_contains_filter", 1)
+	} else {
+		if used.field != "content" {
+			s.ctx.Count("hybrid.explicit_field_other_than_content", 1)
+		}
+		if len(cands) > 1 {
+			s.ctx.Count("hybrid.explicit_field_one_of_several_accepted", 1)
+		}
 	}
-	if len(bm) >= 2 {
+	if len(usedBM) >= 2 {
 		s.ctx.Count("hybrid.queries_with_2plus_text_matches", 1)
 	}
 	if s.compressed {
 		s.ctx.Count("hybrid.queries_after_compress", 1)
 	}
-	s.ctx.Sample("hybrid_query", 2, map[string]any{"alpha": alpha, "text": q, "field": field, "k": k, "metric": string(s.cfg.Metric), "observed": c09IDs(res), "bm25": c09FmtScores(bm), "sim": c09FmtScores(simV)})
+	if k < n {
+		s.ctx.Count("hybrid.queries_k_below_n", 1)
+	}
+	if len(cands) == 1 && len(res) < k {
+		// (len(res) == k: a tie at the cut may be broken differently by two calls)
+		// with several acceptable fields the engine's choice may differ from call to call
+		// (it falls back to "the first field" of a Go map), so two calls are not comparable
+		s.vsearchIDs(v, qv, k, filter, explicit, ef, alpha, res)
+	}
+	s.ctx.Sample("hybrid_query", 2, map[string]any{"alpha": alpha, "text": q, "field": used.field, "k": k, "metric": string(s.cfg.Metric), "observed": c09IDs(res), "bm25": c09FmtScores(usedBM), "sim": c09FmtScores(simV)})
+}
+
+// vsearchIDs checks the id-only read-out: Engine.VSearch with the same arguments returns the
+// same documents as VSearchGraph, in an order that is non-increasing in the scores
+// VSearchGraph reported (ties free).
+func (s *c09State) vsearchIDs(v *c09View, qv []float32, k int, filter, explicit string, ef int, alpha float64, res []engine.GraphSearchResult) {
+	if !s.cs.R.Chance(0.5) {
+		return
+	}
+	s.cs.Op("VSearch(%s, same arguments)  [id-only read-out]", c09Index)
+	ids, err := s.x.E.VSearch(c09Index, qv, k, filter, explicit, ef, alpha, nil)
+	if err != nil {
+		s.cs.Fail("VSearch failed where VSearchGraph succeeded: %v", err)
+	}
+	score := map[string]float64{}
+	for _, h := range res {
+		score[h.ID] = h.Score
+	}
+	last := math.Inf(1)
+	seen := map[string]bool{}
+	for _, id := range ids {
+		sc, ok := score[id]
+		if !ok || seen[id] {
+			s.cs.Fail("VSearch returns %v, VSearchGraph with the same arguments %v: %s is extra or repeated", ids, c09IDs(res), id)
+		}
+		seen[id] = true
+		if sc > last+1e-9 {
+			s.cs.Fail("VSearch order %v is not non-increasing in the scores of VSearchGraph %v (at %s)", ids, c09IDs(res), id)
+		}
+		last = sc
+	}
+	if len(ids) != len(res) {
+		s.cs.Fail("VSearch returns %d ids %v, VSearchGraph with the same arguments %d: %v", len(ids), ids, len(res), c09IDs(res))
+	}
+	s.ctx.Count("hybrid.vsearch_id_readouts", 1)
 }
 
 // textOnlyEngine checks the text-only case of the engine search (no query vector): the first
 // k documents of the BM25 ranking with their BM25 scores.
 func (s *c09State) textOnlyEngine(v *c09View) {
 	cs, r := s.cs, s.cs.R
-	c := v.content
-	if !c.strict || !c.hasTokens() {
+	cands, all, lenient := v.explicitFields()
+	if lenient {
 		s.ctx.Count("textonly.skipped", 1)
 		return
 	}
@@ -1090,51 +1424,81 @@ func (s *c09State) textOnlyEngine(v *c09View) {
 		qv = make([]float32, s.dim)
 	}
 	alpha := vkit.Pick(r, []float64{0, 0.5, 1})
-	cs.Op("VSearchGraph(%s, q=%v, k=%d, text=%q, alpha=%v)  [text-only]", c09Index, qv, k, q, alpha)
+	cs.Op("VSearchGraph(%s, q=%v, k=%d, text=%q, alpha=%v)  [text-only]; text fields now %v", c09Index, qv, k, q, alpha, all)
+	earlier := append([]string(nil), s.fieldLog...)
+	s.noteFields(all)
 	res, err := s.x.E.VSearchGraph(c09Index, qv, k, "", q, 0, alpha, nil, false, nil)
+	if len(cands) == 0 {
+		// No live document holds text: "full-text search over an indexed field" has no field to
+		// run over. The query is issued (it is part of the history: a read must not change what
+		// later searches return) but its own result is outside the statement.
+		s.ctx.Count("textonly.issued_without_any_text_field", 1)
+		if err != nil {
+			s.ctx.Count("textonly.issued_without_any_text_field.error", 1)
+		}
+		return
+	}
 	if err != nil {
 		cs.Fail("text-only VSearchGraph failed: %v", err)
 	}
-	bm := c.score(qt)
-	fail := func(format string, a ...any) {
-		cs.Attach("corpus", c09CorpusDump(v, c))
+	compare := func(c *c09Corpus) (bm map[string]float64, problem string) {
+		bm = c.score(qt)
+		wantN := min(k, len(bm))
+		if len(res) != wantN {
+			return bm, fmt.Sprintf("%d results, expected min(k, matching documents) = %d", len(res), wantN)
+		}
+		seen := map[string]bool{}
+		minRet := math.Inf(1)
+		for i, h := range res {
+			if seen[h.ID] {
+				return bm, fmt.Sprintf("document %s is returned twice", h.ID)
+			}
+			seen[h.ID] = true
+			w, ok := bm[h.ID]
+			if !ok {
+				return bm, fmt.Sprintf("result %s contains no analysed query term (or is not live)", h.ID)
+			}
+			if !c09RelClose(h.Score, w, 1e-9) {
+				return bm, fmt.Sprintf("score of %s is %.15g, reference BM25 %.15g", h.ID, h.Score, w)
+			}
+			if i > 0 && !(h.Score <= res[i-1].Score) {
+				return bm, fmt.Sprintf("results are not in non-increasing score order at position %d", i)
+			}
+			if w < minRet {
+				minRet = w
+			}
+		}
+		for _, id := range vexec.SortedKeys(bm) {
+			if w := bm[id]; !seen[id] && w > minRet && !c09RelClose(w, minRet, 1e-9) {
+				return bm, fmt.Sprintf("document %s (BM25 %.12g) is left out although a returned document scores only %.12g", id, w, minRet)
+			}
+		}
+		return bm, ""
+	}
+	var usedBM map[string]float64
+	ok := false
+	for _, c := range cands {
+		if bm, problem := compare(c); problem == "" {
+			usedBM, ok = bm, true
+			break
+		}
+	}
+	if !ok {
+		bm, problem := compare(cands[0])
+		cs.Attach("corpus", c09CorpusDump(v, cands[0]))
 		cs.Attach("bm25_reference", c09FmtScores(bm))
 		cs.Attach("observed", c09IDs(res))
-		cs.Fail("text-only engine search text=%q k=%d after history [%s]: %s", q, k, strings.Join(s.kinds, " "), fmt.Sprintf(format, a...))
-	}
-	wantN := min(k, len(bm))
-	if len(res) != wantN {
-		fail("%d results, expected min(k, matching documents) = %d", len(res), wantN)
-	}
-	seen := map[string]bool{}
-	minRet := math.Inf(1)
-	for i, h := range res {
-		if seen[h.ID] {
-			fail("document %s is returned twice", h.ID)
+		cs.Attach("text_fields_now", all)
+		cs.Attach("text_field_sets_at_earlier_explicit_queries_on_this_index", earlier)
+		var names []string
+		for _, c := range cands {
+			names = append(names, c.field)
 		}
-		seen[h.ID] = true
-		w, ok := bm[h.ID]
-		if !ok {
-			fail("result %s contains no analysed query term (or is not live)", h.ID)
-		}
-		if !c09RelClose(h.Score, w, 1e-9) {
-			fail("score of %s is %.15g, reference BM25 %.15g", h.ID, h.Score, w)
-		}
-		if i > 0 && !(h.Score <= res[i-1].Score) {
-			fail("results are not in non-increasing score order at position %d", i)
-		}
-		if w < minRet {
-			minRet = w
-		}
-	}
-	for id, w := range bm {
-		if !seen[id] && w > minRet && !c09RelClose(w, minRet, 1e-9) {
-			fail("document %s (BM25 %.12g) is left out although a returned document scores only %.12g", id, w, minRet)
-		}
+		cs.Fail("text-only engine search text=%q k=%d (candidate fields %v; text fields now %v, at earlier explicit-text queries %v) after history [%s]: against %s: %s", q, k, names, all, earlier, strings.Join(s.kinds, " "), cands[0].field, problem)
 	}
 	s.ctx.Eval(1)
 	s.ctx.Count("textonly.queries", 1)
-	if k < len(bm) {
+	if k < len(usedBM) {
 		s.ctx.Count("textonly.truncated_by_k", 1)
 	}
 }
